@@ -79,12 +79,13 @@ def inject(spec0, c):
   pieces, ref, cls_inst = driven_pieces(spec)
   kinds = ["dup_same", "dup_overlap", "dup_parent_field", "net_plus_block", "net_plus_net", "remove_driver",
            "loop", "read_child_wire", "write_own_inport", "write_child_outport", "write_child_wire",
-           "op_in_update", "op_in_update_ff", "ff_to_slice", "const_bad_position", "dup_via_func", "net_plus_block_ancestor"]
+           "op_in_update", "op_in_update_ff", "ff_to_slice", "const_bad_position", "dup_via_func", "net_plus_block_ancestor", "connect_across_subtrees"]
   c.shuffle(kinds)
   # the structurally demanding kinds are rarely feasible: try one of them first half of the time
   if c.random() < 0.5:
     first = c.choice(["remove_driver", "loop", "read_child_wire", "dup_parent_field", "net_plus_net", "write_child_outport",
-                      "const_bad_position", "dup_via_func", "net_plus_block_ancestor", "net_plus_block_ancestor"])
+                      "const_bad_position", "dup_via_func", "net_plus_block_ancestor", "net_plus_block_ancestor",
+                      "connect_across_subtrees", "connect_across_subtrees"])
     kinds.remove(first)
     kinds.insert(0, first)
   for kind in kinds:
@@ -274,6 +275,44 @@ def _try(spec, kind, c, pieces, ref, cls_inst):
           return {ST}
         _newblk(cd, "zwr", [["assign", p, ["const", w, 0]]])
         return {ST, MW}
+  if kind == "connect_across_subtrees":
+    # a common ancestor connects signals whose hosts sit in DIFFERENT sub-trees: uncle -> nephew,
+    # nephew -> uncle (host depths differ by one) or cousins (equal depth): never a legal data path
+    names = list(spec["comps"])
+    c.shuffle(names)
+    w = c.choice([1, 4, 8])
+    for cname in names:
+      cd = spec["comps"][cname]
+      deep = [sb for sb in cd["subs"] if spec["comps"][(sb.get("cls_list") or [sb["cls"]])[0]]["subs"]]
+      if not deep or len(cd["subs"]) < 2:
+        continue
+      sx = c.choice(deep)
+      others = [sb for sb in cd["subs"] if sb is not sx]
+      sy = c.choice(others)
+      xcls = spec["comps"][(sx.get("cls_list") or [sx["cls"]])[0]]
+      sz = c.choice(xcls["subs"])
+      zcls = spec["comps"][(sz.get("cls_list") or [sz["cls"]])[0]]
+      ycls = spec["comps"][(sy.get("cls_list") or [sy["cls"]])[0]]
+      px = [["a", sx["name"]]] + [["i", 0] for _ in sx["dims"]] + [["a", sz["name"]]] + [["i", 0] for _ in sz["dims"]]
+      py = [["a", sy["name"]]] + [["i", 0] for _ in sy["dims"]]
+      form = c.choice(["nephew_out_to_uncle_in", "uncle_out_to_nephew_in", "nephew_out_to_uncle_out"])
+      # the source port is really driven (by a block inside its component), so that the only thing wrong
+      # with the design is the hierarchical position of the connection
+      if form == "nephew_out_to_uncle_in":
+        zcls["signals"].append({"name": "zq5", "kind": "out", "type": w, "dims": []})
+        ycls["signals"].append({"name": "zq6", "kind": "in", "type": w, "dims": []})
+        _newblk(zcls, "zdrv5", [["assign", [["a", "zq5"]], ["const", w, 1]]])
+      elif form == "uncle_out_to_nephew_in":
+        zcls["signals"].append({"name": "zq5", "kind": "in", "type": w, "dims": []})
+        ycls["signals"].append({"name": "zq6", "kind": "out", "type": w, "dims": []})
+        _newblk(ycls, "zdrv6", [["assign", [["a", "zq6"]], ["const", w, 1]]])
+      else:
+        zcls["signals"].append({"name": "zq5", "kind": "out", "type": w, "dims": []})
+        ycls["signals"].append({"name": "zq6", "kind": "out", "type": w, "dims": []})
+        _newblk(zcls, "zdrv5", [["assign", [["a", "zq5"]], ["const", w, 1]]])
+      cd["items"].append({"k": "connect", "a": px + [["a", "zq5"]], "b": py + [["a", "zq6"]], "flip": c.random() < 0.5,
+                          "op": "connect"})
+      return {ST}
   if kind == "dup_via_func":
     # two update blocks whose @s.func call trees reach the same helper that writes a signal (directly, or
     # through 1-2 levels of nesting; the second writer may also be a plain block or a net): two drivers
@@ -442,7 +481,9 @@ def gen_case(R, tier):
     base.update(family="probe", name=c.choice(sorted(PROBES)))
     return base
   for _ in range(20):
-    prof = c.choice(["shapes", "acyclic", "ff_heavy"])
+    prof = designgen.profile(c.choice(["shapes", "acyclic", "ff_heavy"]))
+    if c.random() < 0.4:
+      prof.update(n_child_classes=(2, 3))       # deeper / wider hierarchies: cross-sub-tree defects become feasible
     spec = designgen.DesignGen(c, prof, uid=base["uid"]).gen()
     r = inject(spec, c)
     if r is not None:
